@@ -719,6 +719,12 @@ impl<
                         let active_request =
                             self.create_active_request(details, chunk, INVALID_CONNECTION_ID);
                         return Ok(Some(active_request));
+                    } else {
+                        // the client is gone, hand the request back instead of keeping it borrowed
+                        self.shared_state
+                            .lock()
+                            .request_receiver
+                            .release_offset(&details, REQUEST_CHANNEL_ID);
                     }
                 }
                 None => return Ok(None),
@@ -824,6 +830,12 @@ impl<
                         }
 
                         return Ok(Some(active_request));
+                    } else {
+                        // the client is gone, hand the request back instead of keeping it borrowed
+                        self.shared_state
+                            .lock()
+                            .request_receiver
+                            .release_offset(&details, REQUEST_CHANNEL_ID);
                     }
                 }
                 None => return Ok(None),
